@@ -1,0 +1,8 @@
+// SPDX-License-Identifier: Apache-2.0
+// Copyright Authors of Cilium
+
+//go:build !verif
+
+package statedb
+
+func verifPoint(point, handle string) {}
